@@ -281,14 +281,24 @@ fn expected_query(v: &Value) -> BTreeSet<String> {
 
 /// authorize one program and compare everything with the spec's result record
 pub fn check_program(blocks: &[Value], authz: &Value, res: &Value, tag: &str, problems: &mut Vec<String>) -> Option<Value> {
-    let tok = match build_token(blocks) {
-        Ok(t) => t,
-        Err(e) => {
-            problems.push(format!("{tag}: building the token failed: {e}"));
-            return None;
+    // no block at all: an authorizer without a token
+    let built = if blocks.is_empty() {
+        AuthorizerBuilder::new().code(authz_code(authz)).map_err(te).and_then(|mut ab| {
+            for s in scopes_of(&authz["scope"]) {
+                ab = ab.scope(s);
+            }
+            ab.limits(big_limits()).build_unauthenticated().map_err(te)
+        })
+    } else {
+        match build_token(blocks) {
+            Ok(tok) => build_authorizer(authz, &tok, big_limits()),
+            Err(e) => {
+                problems.push(format!("{tag}: building the token failed: {e}"));
+                return None;
+            }
         }
     };
-    let mut a = match build_authorizer(authz, &tok, big_limits()) {
+    let mut a = match built {
         Ok(a) => a,
         Err(e) => {
             problems.push(format!("{tag}: building the authorizer failed: {e}"));
@@ -328,6 +338,27 @@ pub fn check_program(blocks: &[Value], authz: &Value, res: &Value, tag: &str, pr
             }
         }
         Err(e) => problems.push(format!("{tag}: query failed {e:?}")),
+    }
+    // query_exactly_one: the single result, or an error that carries the number of results
+    if res.get("q_one").is_some() {
+        let q: Result<(String,), _> = a.query_exactly_one("r($x) <- f($x)");
+        let want_ok = res["q_one"]["ok"].as_bool().unwrap();
+        let want_n = res["q_one"]["n"].as_u64().unwrap();
+        match q {
+            Ok(v) => {
+                if !want_ok {
+                    problems.push(format!("{tag}: query_exactly_one returned {:?}, the spec finds {want_n} facts", v.0));
+                } else if !expected_query(&res["q_default"]).contains(&v.0) {
+                    problems.push(format!("{tag}: query_exactly_one returned {:?}, not the spec's fact", v.0));
+                }
+            }
+            Err(error::Token::RunLimit(error::RunLimit::UnexpectedQueryResult(1, n))) => {
+                if want_ok || n as u64 != want_n {
+                    problems.push(format!("{tag}: query_exactly_one reports {n} facts, the spec finds {want_n}"));
+                }
+            }
+            Err(e) => problems.push(format!("{tag}: query_exactly_one failed {e:?}")),
+        }
     }
     let q: Result<Vec<(String,)>, _> = a.query_all("r($x) <- f($x)");
     match q {
